@@ -628,6 +628,10 @@ macro_rules! do_step {
             // ---- queries ----
             "?e" => res_bool($e.enforce(parse_vals(f[1]))),
             "?ec" => res_bool($e.enforce_with_context(casbin::EnforceContext::new(&dec(f[1])), parse_vals(f[2]))),
+            "?c4" => res_bool($e.enforce_with_context(
+                casbin::EnforceContext { r_type: dec(f[1]), p_type: dec(f[2]), e_type: dec(f[3]), m_type: dec(f[4]) },
+                parse_vals(f[5]),
+            )),
             "?gp" => enc_rules(&if f[1] == "g" { $e.get_named_grouping_policy(&dec(f[2])) } else { $e.get_named_policy(&dec(f[2])) }),
             "?ga" => enc_rules(&if f[1] == "g" { $e.get_all_grouping_policy() } else { $e.get_all_policy() }),
             "?hp" => b01(if f[1] == "g" {
